@@ -358,6 +358,23 @@ func init() {
 			"when the exact range fits but the widened one does not, both an error and an in-band range are accepted (the property allows either)",
 		},
 		Gen: genC12, Check: checkC12, Classify: classifyC12, Sweep: sweepC12,
+		Related: func(c *CaseC12) []*CaseC12 {
+			var out []*CaseC12
+			add := func(m func(*CaseC12)) {
+				d := *c
+				m(&d)
+				if d.SrcZoom >= 0 && d.SrcZoom <= 35 && d.DstZoom >= 0 && d.DstZoom <= 35 && d.E >= 0 && d.E <= 35 && c12Safe(&d) {
+					out = append(out, &d)
+				}
+			}
+			add(func(d *CaseC12) { d.Index++ })
+			add(func(d *CaseC12) { d.SrcZoom++ })
+			add(func(d *CaseC12) { d.DstZoom-- })
+			add(func(d *CaseC12) { d.E++ })
+			add(func(d *CaseC12) { d.Off-- })
+			add(func(d *CaseC12) { d.ZToKey = !d.ZToKey })
+			return out
+		},
 		SweepScopes: func(tier string) []string {
 			if tier == "quick" {
 				return []string{"both directions x zooms {0..3,24..27}^2 x E in {0,24,25,26} x |off|<=3 x (all indices incl. one beyond each end at zooms<=3, edge indices at 24..27) (exhaustive)"}
